@@ -30,7 +30,7 @@ func init() {
 				"R16.3 presets: SFNone returns (\"\",0); the six others are NewSFFunction(CharRecipe{Length,Allow,Exclude}) with the documented triples and no other field; the function NewSFFunction returns forwards Generate().String() and Password.Entropy of exactly that recipe",
 				"R16.4 retry budget: MaxTrials initialised to 200, MaxFailRate to exactly 1/10^9; neither is stored to outside the package initialiser; the character draws sit in a counted loop of exactly MaxTrials attempts",
 				"R16.5 shipped lists: AgileWords/AgileSyllables elements equal the lines of testdata/agwordlist.txt / agsyllables.txt in order; duplicate-free, lower-case, non-empty; never stored to (variable or elements) outside the initialiser",
-				"R16.6 every package-level variable of the library keeps its initialiser's value: no function of the module (library init functions and the CLI included) stores to it, updates or deletes from the map or slice it holds, or passes its address on",
+				"R16.6 every exported package-level variable of the library, and the class table, keeps its initialiser's value: no function of the module (library init functions and the CLI included) stores to it, updates or deletes from the map or slice it holds, or passes its address on",
 			},
 			Trusted:    commonTrusted,
 			NotDecided: []string{"distribution of preset outputs as such (follows from C01/C02 for the extracted recipes)"},
